@@ -54,9 +54,13 @@ Definition maybe_transpose (sp : space) (o : shape) : option shape :=
   | _ => Some o
   end.
 
+(* a Box of rank 0 passes the shape logic but the features extractor (Flatten(start_dim=1)) raises IndexError on its (n,) tensor:
+   such spaces are modelled as rejected (see docs/C11.md: finding box-rank0-observation-rejected) *)
+Definition supported (sp : space) : bool := match sp with SBox [] _ => false | _ => true end.
+
 (* obs_to_tensor for a non-dict observation: (vectorized?, shape of the tensor given to the network) *)
 Definition obs_to_tensor (sp : space) (o : shape) : option (bool * shape) :=
-  match maybe_transpose sp o with
+  match (if supported sp then maybe_transpose sp o else None) with
   | None => None
   | Some o' =>
       match is_vectorized sp o' with
@@ -72,18 +76,36 @@ Definition predict_shape (sp : space) (ashape : shape) (o : shape) : option shap
   | Some (v, t) => Some (if v then hd 1 t :: ashape else ashape)
   end.
 
-(* Dict observations: per key, OR of the per-key answers; every key is reshaped to its own batch; the feature
-   extractor concatenates them, which needs one common batch size (None = exception) *)
-Fixpoint dict_tensors (sps : list space) (os : list shape) : option (bool * list Z) :=
+(* Dict observations, in the iteration order of the observation dict:
+     vectorized_env = vectorized_env or is_vectorized_observation(obs_, obs_space)
+   short-circuits: once a key was found vectorised the later keys are NOT validated any more; every key is reshaped with
+   reshape((-1, *space.shape)) (needs a divisible number of elements); the feature extractor then concatenates the keys, which needs
+   one common batch size (None = exception) *)
+Definition prodZ (l : list Z) : Z := fold_right Z.mul 1 l.
+
+Definition reshape_batch (sp : space) (o : shape) : option Z :=
+  let d := prodZ (space_shape sp) in
+  if (0 <? d) && (prodZ o mod d =? 0) then Some (prodZ o / d) else None.
+
+Fixpoint dict_tensors_from (v : bool) (sps : list space) (os : list shape) : option (bool * list Z) :=
   match sps, os with
-  | [], [] => Some (false, [])
+  | [], [] => Some (v, [])
   | sp :: sps', o :: os' =>
-      match obs_to_tensor sp o, dict_tensors sps' os' with
-      | Some (v, t), Some (v', bs) => Some (v || v', hd 1 t :: bs)
-      | _, _ => None
+      match (if supported sp then maybe_transpose sp o else None) with
+      | None => None
+      | Some o' =>
+          match (if v then Some true else is_vectorized sp o'), reshape_batch sp o' with
+          | Some v1, Some b =>
+              match dict_tensors_from v1 sps' os' with
+              | Some (v2, bs) => Some (v2, b :: bs)
+              | None => None
+              end
+          | _, _ => None
+          end
       end
   | _, _ => None
   end.
+Definition dict_tensors := dict_tensors_from false.
 
 Definition all_equal (l : list Z) : option Z :=
   match l with
